@@ -79,7 +79,14 @@ def run(rep, tier, seed, build):
     progs = programs(seed, n, nops)
     res = run_seq(rep, progs)
     st = res["stats"]
-    cc = [c for c in pmap(counter_check, progs) if c]
+    # the highest seqno of a keyspace lives only in its tables (bulk ingestion is its last operation) and many EMPTY keyspaces
+    # surround it: whatever order recovery visits the keyspaces in, the counter must end above the ingested table
+    many = []
+    for names in (("e%d", "data"), ("k%d", "zz"), ("x%d", "m"), ("aa%d", "b0")):
+        L = ["open plain"] + ["ks h%d %s" % (i, names[0] % i) for i in range(9)] + ["ks h9 " + names[1], "put h9 61 01",
+             "ingest h9 6a=01 6b=02 6c=03", "reopen"]
+        many.append("\n".join(L) + "\n")
+    cc = [c for c in pmap(counter_check, progs + many) if c]
     if cc:
         c = min(cc, key=lambda c: len(c["prog"]))
         rep.violation("# C11: after reopen the sequence counter (%d, visible %d) does not exceed every recovered seqno: "
